@@ -44,8 +44,8 @@ Lemma longest_thm e ops i c maxms errid s w' cands :
   exists b, nth_error (w_bos (run e init_world ops)) i = Some b /\ 0 < b_max b /\ exceeded e b (c_name c) = true /\
     cands <> [] /\
     (0 < longest_val e (b_sleep b) ->
-       forall r, In r cands -> exists n cf, r = Some (c_err cf) /\ first_cfg n (b_cfgs b) = Some cf /\ c_name cf = n /\ is_longest e b n) /\
-    (longest_val e (b_sleep b) <= 0 -> cands = [cand_err b 0]).
+       forall r, In r cands -> exists n cf, r = Some (cur_err (run e init_world ops) cf) /\ first_cfg n (b_cfgs b) = Some cf /\ c_name cf = n /\ is_longest e b n) /\
+    (longest_val e (b_sleep b) <= 0 -> cands = [cand_err (run e init_world ops) b 0]).
 Proof.
   simpl. intros E.
   apply do_backoff_cases in E as [[-> [X|[X|(b & Hn & Hx & X)]]]|(b & f & _ & _ & _ & _ & _ & _ & _ & _ & X)]; try discriminate.
@@ -103,6 +103,7 @@ Proof.
     intros x q f H. destruct (Nat.eq_dec c x) as [->|N].
     + rewrite nth_upd_same by (eapply nth_lt; eauto). assert (q = o) by congruence. subst. eauto.
     + rewrite nth_upd_other by auto. eauto.
+  - dm; simpl; auto.
   - dm; simpl; auto.
 Qed.
 
